@@ -4,10 +4,14 @@
 //   A = HArray<String<char>, String<char>>   (owning strings as values)
 //   B = HArray<String<char>, Value<char>>    (nested values: object holding a number and an array)
 //   L = HList<String<char>>                  (no values; printed as 0)
-// Operation syntax: see lean/Qentem/Driver/HashTable.lean.  Extra op, harness only:
-//   W  self-merge  h += h   (the model cannot alias operands)
+// Operation syntax: see lean/Qentem/Driver/HashTable.lean (W = self-merge h += h, both overloads).
+//   htled <A|L> <ops>    ->  "ok"; one table lifetime with every operation done through ONE fixed call
+//                            (no dumps, no oracle, no extra temporaries) so that the allocation trace
+//                            appended by vh::emit (-DVERIF_LEDGER) is the library's own; the model of
+//                            that trace is lean/Qentem/Model/HashLedger.lean (driver op htled)
 // Record = out#size cap heads#items, items = key/Hash/Next/value-id joined by ';'.
 // Bucket heads are read at Storage() - Capacity() (HashTable.hpp layout), no private access.
+#include "ledger.hpp" // first: with -DVERIF_LEDGER the library's Allocate/Deallocate are logged
 #include "common.hpp"
 #include "HArray.hpp"
 #include "HList.hpp"
@@ -430,7 +434,8 @@ struct Runner {
             return "u";
         }
         if (c == "W" && f.size() == 1) {
-            h += h;
+            if (rot++ % 2) h += h;
+            else h += Memory::Move(h);
             return "u";
         }
         return "";
@@ -452,32 +457,171 @@ struct Runner {
     }
 };
 
+
+// ---- allocation-ledger runner (C16): canonical calls, see Model/HashLedger.lean ----------------
+template <typename Table, typename VT, bool HasValue>
+struct LedRunner {
+    template <bool B = HasValue>
+    static typename std::enable_if<B>::type ins(Table &t, const char *kp, SizeT n, uint64_t id) {
+        Key            k(kp, n);
+        typename VT::T v = VT::make(id);
+        t.Insert(Memory::Move(k), Memory::Move(v));
+    }
+    template <bool B = HasValue>
+    static typename std::enable_if<!B>::type ins(Table &t, const char *kp, SizeT n, uint64_t) {
+        Key k(kp, n);
+        t.Insert(Memory::Move(k));
+    }
+    template <bool B = HasValue>
+    static typename std::enable_if<B, bool>::type getOp(Table &t, const char *kp, SizeT n) { t.Get(kp, n); return true; }
+    template <bool B = HasValue>
+    static typename std::enable_if<!B, bool>::type getOp(Table &, const char *, SizeT) { return false; }
+    template <bool B = HasValue>
+    static typename std::enable_if<B, bool>::type assignOp(Table &t, const char *kp, SizeT n, uint64_t id) {
+        typename VT::T  v = VT::make(id);
+        typename VT::T &r = t.Get(kp, n);
+        r                 = Memory::Move(v);
+        return true;
+    }
+    template <bool B = HasValue>
+    static typename std::enable_if<!B, bool>::type assignOp(Table &, const char *, SizeT, uint64_t) { return false; }
+    template <bool B = HasValue>
+    static typename std::enable_if<B>::type lookupVal(Table &t, const char *kp, SizeT n) { (void)t.GetValue(kp, n); }
+    template <bool B = HasValue>
+    static typename std::enable_if<!B>::type lookupVal(Table &, const char *, SizeT) {}
+
+    static bool num(const std::string &s, uint64_t &n) {
+        if (s.empty()) return false;
+        n = 0;
+        for (char ch : s) {
+            if (ch < '0' || ch > '9') return false;
+            n = n * 10 + uint64_t(ch - '0');
+        }
+        return true;
+    }
+
+    static bool buildOperand(Table &src, const std::string &insf, const std::string &remf) {
+        std::vector<uint64_t> u;
+        uint64_t              n = 0;
+        if (insf != "-") {
+            for (const auto &kv : vh::split(insf, '&')) {
+                auto p = vh::split(kv, '=');
+                if (p.size() != 2 || !vh::parse_nats(p[0], u) || !num(p[1], n)) return false;
+                vh::ExactBuf<char> kb(u);
+                ins(src, static_cast<const char *>(kb.p), SizeT(kb.n), n);
+            }
+        }
+        if (remf != "-") {
+            for (const auto &k : vh::split(remf, '&')) {
+                if (!vh::parse_nats(k, u)) return false;
+                vh::ExactBuf<char> kb(u);
+                src.Remove(static_cast<const char *>(kb.p), SizeT(kb.n));
+            }
+        }
+        return true;
+    }
+
+    static bool apply(Table &h, const std::string &op) {
+        auto                  f = vh::split(op, '/');
+        std::vector<uint64_t> u, u2;
+        const std::string    &c = f[0];
+        uint64_t              n = 0;
+        if ((c == "I" || c == "A") && f.size() == 3 && vh::parse_nats(f[1], u) && num(f[2], n)) {
+            vh::ExactBuf<char> kb(u);
+            const char        *kp = kb.p;
+            if (c == "I") { ins(h, kp, SizeT(kb.n), n); return true; }
+            return assignOp(h, kp, SizeT(kb.n), n);
+        }
+        if ((c == "G" || c == "L" || c == "R") && f.size() == 2 && vh::parse_nats(f[1], u)) {
+            vh::ExactBuf<char> kb(u);
+            const char        *kp = kb.p;
+            if (c == "G") return getOp(h, kp, SizeT(kb.n));
+            if (c == "R") { h.Remove(kp, SizeT(kb.n)); return true; }
+            SizeT idx = 0;
+            lookupVal(h, kp, SizeT(kb.n));
+            (void)h.Has(kp, SizeT(kb.n));
+            (void)h.GetKeyIndex(idx, kp, SizeT(kb.n));
+            return true;
+        }
+        if ((c == "X" || c == "D" || c == "V" || c == "Z" || c == "E") && f.size() == 2 && num(f[1], n) && n < 100000) {
+            const SizeT i = SizeT(n);
+            if (c == "X") { (void)h.GetKey(i); (void)h.GetItem(i); }
+            else if (c == "D") h.RemoveIndex(i);
+            else if (c == "V") h.Reserve(i);
+            else if (c == "Z") h.Resize(i);
+            else h.Expect(i);
+            return true;
+        }
+        if (c == "N" && f.size() == 3 && vh::parse_nats(f[1], u) && vh::parse_nats(f[2], u2)) {
+            vh::ExactBuf<char> a(u), b(u2);
+            const char        *ap = a.p, *bp = b.p;
+            Key                from(ap, SizeT(a.n));
+            Key                to(bp, SizeT(b.n));
+            (void)h.Rename(from, Memory::Move(to));
+            return true;
+        }
+        if (c == "C" && f.size() == 1) { h.Compress(); return true; }
+        if (c == "K" && f.size() == 1) { h.Clear(); return true; }
+        if (c == "T" && f.size() == 1) { h.Reset(); return true; }
+        if (c == "S" && f.size() == 2 && (f[1] == "0" || f[1] == "1")) { h.Sort(f[1] == "1"); return true; }
+        if (c == "Y" && f.size() == 1) { Table t(h); h = Memory::Move(t); return true; }
+        if (c == "M" && f.size() == 1) { Table m(Memory::Move(h)); h = Memory::Move(m); return true; }
+        if ((c == "P" || c == "Q") && f.size() == 3) {
+            Table src;
+            if (!buildOperand(src, f[1], f[2])) return false;
+            if (c == "P") h += src;
+            else h += Memory::Move(src);
+            return true;
+        }
+        if (c == "W" && f.size() == 1) { h += h; return true; }
+        return false;
+    }
+
+    static std::string runOps(const std::string &ops) {
+        Table h;
+        if (ops == "-") return "ok";
+        for (const auto &op : vh::split(ops, ';'))
+            if (!apply(h, op)) return "bad-op";
+        return "ok";
+    } // ~Table here: every library object of the line is gone before vh::emit
+};
+
 int main() {
     std::string line;
     while (vh::read_line(line)) {
-        auto t = vh::split(line);
+        auto        t = vh::split(line);
+        std::string out;
         if (t.size() == 3 && t[0] == "htrun") {
             if (t[1] == "A") {
                 Runner<HArray<Key, String<char>>, ValStr, true> r;
-                vh::emit(r.runOps(t[2]));
+                out = r.runOps(t[2]);
             } else if (t[1] == "B") {
                 Runner<HArray<Key, Value<char>>, ValNested, true> r;
-                vh::emit(r.runOps(t[2]));
+                out = r.runOps(t[2]);
             } else if (t[1] == "L") {
                 Runner<HList<Key>, ValStr, false> r;
-                vh::emit(r.runOps(t[2]));
+                out = r.runOps(t[2]);
             } else {
-                vh::emit("bad-op");
+                out = "bad-op";
             }
+        } else if (t.size() == 3 && t[0] == "htled") {
+            if (t[1] == "A") out = LedRunner<HArray<Key, String<char>>, ValStr, true>::runOps(t[2]);
+            else if (t[1] == "B") out = LedRunner<HArray<Key, Value<char>>, ValNested, true>::runOps(t[2]);
+            else if (t[1] == "L") out = LedRunner<HList<Key>, ValStr, false>::runOps(t[2]);
+            else out = "bad-op";
         } else if (t.size() == 2 && t[0] == "hthash") {
             std::vector<uint64_t> u;
-            if (!vh::parse_nats(t[1], u)) { vh::emit("bad-op"); continue; }
-            vh::ExactBuf<char> kb(u);
-            const char        *kp = kb.p;
-            vh::emit(std::to_string(StringUtils::Hash(kp, SizeT(kb.n))));
+            if (!vh::parse_nats(t[1], u)) {
+                out = "bad-op";
+            } else {
+                vh::ExactBuf<char> kb(u);
+                const char        *kp = kb.p;
+                out                   = std::to_string(StringUtils::Hash(kp, SizeT(kb.n)));
+            }
         } else {
-            vh::emit("bad-op");
+            out = "bad-op";
         }
+        vh::emit(out); // all library objects of the line have been destroyed
     }
     return 0;
 }
